@@ -161,23 +161,19 @@ func init() {
 	}
 	// ---- atomics
 	ext["sync/atomic.AddUint64"] = func(fr *frame, args []value) value {
-		SC.yield()
 		p := deref(fr, args[0], "atomic.AddUint64")
 		*p = binop(token.ADD, types.Typ[types.Uint64], *p, args[1])
 		return *p
 	}
 	ext["sync/atomic.AddUint32"] = func(fr *frame, args []value) value {
-		SC.yield()
 		p := deref(fr, args[0], "atomic.AddUint32")
 		*p = binop(token.ADD, types.Typ[types.Uint32], *p, args[1])
 		return *p
 	}
 	ext["sync/atomic.LoadUint64"] = func(fr *frame, args []value) value {
-		SC.yield()
 		return *deref(fr, args[0], "atomic.LoadUint64")
 	}
 	ext["sync/atomic.StoreUint64"] = func(fr *frame, args []value) value {
-		SC.yield()
 		*deref(fr, args[0], "atomic.StoreUint64") = args[1]
 		return nil
 	}
